@@ -323,6 +323,39 @@ def init_lengths(rep, prog, tag):
                 rep.ob("INIT-LEN", "%s|digest length = OUTPUT_LENGTH%s" % (f0.path, tag), ok,
                        "the incremental state is initialised with digest length %s" % (deep_repr(e)[:60]), loc=c.loc())
     rep.floor("GenericHash incremental constructors" + tag, n, 1)
+    # ... and finalises into OUTPUT_LENGTH bytes: an output buffer the method sizes itself (`vec![0; n]`,
+    # `resize(n, 0)`) is sized by that parameter, not by a constant (a container typed `NewByteArray<OUTPUT_LENGTH>`
+    # has the length by type)
+    from ..core import def_sites
+    from ..expr import evaluate
+    m = 0
+    for imp in prog.impls:
+        gens = imp.get("generics", [])
+        st = imp["self_ty"]["t"]
+        if not st.startswith("generichash::GenericHash<") or "OUTPUT_LENGTH" not in gens or imp.get("trait"):
+            continue
+        for it in imp["items"]:
+            f0 = prog.by_key.get(it["key"])
+            if f0 is None or f0.kind == "closure":
+                continue
+            f = inline(prog, f0)
+            for c in f.calls():
+                oi = 1 if c.rpath.endswith("crypto_generichash::crypto_generichash_final") else 0 if c.rpath.endswith("crypto_generichash::crypto_generichash") else None
+                if oi is None or len(c.args) <= oi or not operand_locals(c.args[oi]):
+                    continue
+                m += 1
+                root = cm.view_info(f, list(operand_locals(c.args[oi]))[0])[0]
+                sizes = []
+                for d in def_sites(f, root):
+                    if d[1] == "call" and d[2].name in ("from_elem", "with_capacity") and len(d[2].args) >= 1:
+                        sizes.append(call_arg_exprs(d[2])[-1])
+                for r in f.calls():
+                    if r.name == "resize" and len(r.args) >= 2 and operand_locals(r.args[0]) and cm.view_info(f, list(operand_locals(r.args[0]))[0])[0] == root:
+                        sizes.append(call_arg_exprs(r)[1])
+                bad = [deep_repr(e)[:40] for e in sizes if not (e.k == "const" and e.a is None and str(e.b) == "OUTPUT_LENGTH")]
+                rep.ob("INIT-LEN", "%s|output length = OUTPUT_LENGTH%s" % (f0.path, tag), not bad,
+                       "the output buffer is sized by %s" % (bad or ("its type" if not sizes else "OUTPUT_LENGTH")), loc=c.loc())
+    rep.floor("GenericHash finalisers / one-shot" + tag, m, 2)
 
 
 def hmac(rep, prog, tag):
